@@ -82,6 +82,30 @@ def packetLength (newLength : Nat) : Bytes := beBytes 4 ((newLength + lenSize) %
 def replaceSimpleQuery (p : Packet) (q : Bytes) : Packet :=
   { p with body := q ++ [0], lenBuf := packetLength (q.length + 1) }
 
+/-! ### Go integer conversions of `utils.go` (interpreted from the regenerated `pgIntReads`) -/
+
+/-- two's complement reinterpretation of an integer as a signed `bits`-bit Go integer -/
+def wrapSigned (bits : Nat) (v : Int) : Int :=
+  let m : Int := ((2 ^ bits : Nat) : Int)
+  let r := v % m
+  if r < m / 2 then r else r - m
+
+/-- one Go integer conversion `T(v)` (`int`/`uint` are 64 bits); an unknown name is the identity (factgen
+refuses to emit names outside this list) -/
+def goConv (name : String) (v : Int) : Int :=
+  if name = "int" ∨ name = "int64" then wrapSigned 64 v
+  else if name = "int32" then wrapSigned 32 v
+  else if name = "int16" then wrapSigned 16 v
+  else if name = "int8" then wrapSigned 8 v
+  else if name = "uint" ∨ name = "uint64" then v % ((2 ^ 64 : Nat) : Int)
+  else if name = "uint32" then v % ((2 ^ 32 : Nat) : Int)
+  else if name = "uint16" then v % ((2 ^ 16 : Nat) : Int)
+  else if name = "uint8" ∨ name = "byte" then v % ((2 ^ 8 : Nat) : Int)
+  else v
+
+/-- a chain of conversions, innermost first, applied to the value `binary.BigEndian.UintN` returned -/
+def goConvs (chain : List String) (v : Nat) : Int := chain.foldl (fun x c => goConv c x) (v : Int)
+
 /-! ### specification codec -/
 
 /-- a well-framed message: type byte, 4-byte big-endian length (counting itself), body -/
